@@ -210,6 +210,24 @@ def r03b(model, ctx):
                     isinstance(x.func, ast.Attribute) and x.func.attr == "append" and x.args]
             has_if = any(tt is not None and tt.skeleton() == "if {0}:" for tt in tmpl)
             found = found and has_if
+    # the reset block loads registers only: the collector it walks is built from the domain's statements (memory read port
+    # outputs, added to the commit collector with visit_value, have no reset: $memrd_v2 ties SRST/ARST to 0 and a disabled
+    # port holds its output)
+    regs_only = False
+    for lp in ast.walk(fn):
+        if isinstance(lp, ast.For) and unparse(lp.iter).endswith(".masks()") and isinstance(lp.iter, ast.Call) and \
+                isinstance(lp.iter.func, ast.Attribute) and isinstance(lp.iter.func.value, ast.Name):
+            tm = [template_of(x.args[0]) for x in ast.walk(lp) if isinstance(x, ast.Call) and isinstance(x.func, ast.Attribute)
+                  and x.func.attr == "append" and x.args]
+            if any(tt is not None and tt.skeleton() == "next_{0} = {1}" and tt.holes[1].src == "signal.init" for tt in tm):
+                cname = lp.iter.func.value.id
+                uses = [c_ for c_ in ast.walk(fn) if isinstance(c_, ast.Call) and isinstance(c_.func, ast.Attribute) and
+                        isinstance(c_.func.value, ast.Name) and c_.func.value.id == cname and c_.func.attr.startswith("visit")]
+                regs_only = bool(uses) and all(c_.func.attr == "visit_stmt" and [unparse(a) for a in c_.args] == ["domain_stmts"] for c_ in uses)
+    ctx.check(regs_only, R, "_FragmentCompiler:reset-block:registers-only", "the reset block walks the statement-driven bits only",
+              "the simulator's reset block must reset only the registers driven by the domain's statements: the collector it walks "
+              "must not contain memory read port outputs (visit_value(port._data, ..)), which have no reset in the netlist and hold "
+              "their value while the port is disabled", f"{PYRTL}:{fn.lineno}")
     ctx.check(found, R, "_FragmentCompiler:reset-block", "if rst: next_i = init for every non-reset_less signal",
               "the simulator's reset block must load signal.init under `if <rst>:` for exactly the signals that are not "
               "reset_less", f"{PYRTL}:{fn.lineno}")
